@@ -97,7 +97,13 @@ func ruleR04a(c *Check) {
 		}
 	}
 	// the loader's shared package map (locals of the function that spawns the loader goroutines)
-	if lp := c.P.Func("loading", "", "LoadPackages"); lp != nil {
+	var lpFn *ssa.Function
+	for _, fn := range c.P.Funcs {
+		if engine.InPackage(fn, "loading") && fn.Parent() == nil && len(callsNamed(fn, "github.com/boyter/gocodewalker.NewParallelFileWalker")) > 0 {
+			lpFn = fn
+		}
+	}
+	if lp := lpFn; lp != nil {
 		var mapVar, muVar *ssa.Alloc
 		for _, b := range lp.Blocks {
 			for _, in := range b.Instrs {
